@@ -17,6 +17,30 @@ TRUSTED_BASE = [
 ]
 
 PROPS = {
+    "C04": {
+        "what": "program store = finite map + ordered key set: both indexes agree after every edit history (invariant), an edit writes exactly its key (last writer wins, bare number deletes, failed tokenization changes nothing), LIST = stored lines ascending, `after` = least greater key for every n, RUN order = keys ascending, edits to different lines commute",
+        "theorems": ["wf_empty", "get_set", "wf_set", "wf_reachable", "store_refines", "set_comm", "list_sorted", "after_least", "run_order", "submit_numbered", "submit_failed"],
+        "open": ["lineno_parse: parseLineNumber accepts exactly ASCII-blank-prefixed digit runs with value < 2^64 (covered by the correspondence slice's number pool only)"],
+        "slices": ["c04"],
+        "level_text": "Machine-checked theorems (Lean 4) about the model of program_lines.rs / Interpreter::start_evaluating for ALL edit histories: the two indexes (token map, ordered set) agree as an inductive invariant, refinement of the store to a finite map, LIST/after/first/RUN order over the ordered index with no bound on line numbers, commutation of edits to distinct lines. Correspondence: random edit histories over a line-number pool incl. 0, leading zeros and the u64 extremes, interleaved with LIST and RUN, implementation vs model (replies and full state snapshot incl. both indexes) vs a BTreeMap oracle.",
+        "level_note": "Trusted: Lean kernel; the hand-written model of ProgramLines/Program (HashMap and BTreeSet as lists) validated by sampling; u64 range of line numbers enters only through parse_line_number (modelled, value < 2^64) — `after` is proved over unbounded naturals.",
+    },
+    "C12": {
+        "what": "blank- and case-insensitivity of the crunching matchers: skipWs absorbs an inserted blank, chomp_keyword / chomp_any_keyword / chomp_one_or_two_characters give the same token and related rests for inputs differing by one inserted blank anywhere, keyword matching is case-insensitive, a leading blank changes no token of the main loop",
+        "theorems": ["skipWs_blank", "skipWs_ins", "skipWs_ins_cases", "chompKeyword_ins", "chompKeywordTable_ins", "chompAnyKeyword_ins", "chompOneOrTwo_ins", "skipWs_caseEq", "chompKeyword_caseEq", "tokLoop_leading_blank"],
+        "open": ["numLoop_ins / symLoop_ins (number and identifier matchers respect inserted blanks)", "crunch_blank / crunch_case for whole lines with the protected-region side condition", "data_blank (blanks around DATA items)"],
+        "slices": ["c12"],
+        "level_text": "Machine-checked theorems (Lean 4) that the blank-skipping primitive, the keyword matcher, the keyword table and the operator matcher of the model tokenizer are insensitive to a blank inserted ANYWHERE in their input and to letter case (for every input text, every keyword, every position). The lift to whole lines (number / identifier matchers, protected-region side condition, DATA blanks) is not yet proved: for those the check rests on the correspondence slice (implementation tokens = model tokens on original and perturbed lines, exhaustive single edits of short lines) and the implementation oracle (token sequences of original vs perturbed line).",
+        "level_note": "PARTIAL proof: matcher-level lemmas only; whole-line statement still open (listed in evidence under not_yet_proved). Trusted: Lean kernel, extractor for the keyword/operator tables, hand-written tokenizer model validated by sampling.",
+    },
+    "C13": {
+        "what": "token ranges of the model tokenizer: ordered, non-overlapping, start <= end, first at/after the skipped prefix; tokens start on a non-blank; error positions lie at/after the end of the last token",
+        "theorems": ["chain_mono", "tokLoop_chain", "ranges_chain", "skipWs_suffix", "skipWs_nonblank", "errPosOk_mono", "tokLoop_error_pos", "error_after_skip"],
+        "open": ["in_bounds (end <= line length) and strictness (start < end): need 'every matcher consumes a non-empty prefix'", "nonblank_ends", "self_tokenise (the text of a range re-tokenizes to its token)", "tokenize_total (fuel never runs out)"],
+        "slices": ["c13"],
+        "level_text": "Machine-checked theorems (Lean 4) for every line and skip: reported ranges form a chain skip <= s1 <= e1 <= s2 <= e2 ..., tokens start on non-blank characters, an error position is never before the end of the last token; character-boundary alignment is structural in the model (positions are UTF-8 lengths of whole-character prefixes). Upper bounds, strictness and re-tokenization of a range are not yet proved: the check rests for them on the correspondence slice ((token, range) pairs equal between implementation and model; exhaustive over all strings up to length 3/5 of a 17-symbol alphabet) and on the implementation oracle (bounds, boundaries, order, blank ends, re-tokenization of every slice).",
+        "level_note": "PARTIAL proof (see not_yet_proved in evidence). Trusted: Lean kernel, extractor, hand-written tokenizer model validated by sampling and bounded exhaustive enumeration.",
+    },
     "C18": {
         "what": "RND: state reduced mod 2^33 by randomize, positive argument = one step of the documented LCG (no 64-bit overflow possible), RND(0) repeats, negative argument errors without advancing, k-th value is a pure function of seed mod 2^33",
         "theorems": ["constants", "step_is_lcg", "seed_reduced", "seed_congruence", "step_in_range", "no_overflow", "rnd_negative", "rnd_zero",
